@@ -768,7 +768,7 @@ def _collect(it, ntasks, S, seen_hangs=None):
 def explore(units, seed, workers, cap_s, t0, tier='quick'):
     global _UNITS, _SEED, HANG_CPU, HANG_WALL, _SLOTS, _SLOTTXT, _SLOTCTR
     _UNITS, _SEED = units, seed
-    HANG_CPU = HANG_CPU or (240.0 if tier == 'quick' else 1200.0)
+    HANG_CPU = HANG_CPU or (120.0 if tier == 'quick' else 1200.0)
     HANG_WALL = HANG_WALL or 10 * HANG_CPU
     ctx = mp.get_context('fork')
     _SLOTS = ctx.RawArray('d', _NSLOTS * _SLOTW)
